@@ -124,11 +124,18 @@ def stepByte (key : Bytes) (r : Reader) (b : UInt8) : Reader :=
     if r.need ≤ 1 then complete key { r with consumed := r.consumed + 1 } (b :: r.acc).reverse
     else { r with need := r.need - 1, acc := b :: r.acc, consumed := r.consumed + 1 }
 
-/-- a piece of the stream, of any size, arrives -/
+/-- a piece of the stream, of any size, arrives.  `key` is the key registered for the session while
+these bytes are read: `receive_loop` copies `session->key` *after* the frame has been read (flag
+`Gen.C14.recvKeySnapshotAfterFrame`), so a frame is decrypted with the key in force when its last
+byte arrives — `register_peer_key` on a live session takes effect for the next frame completed. -/
 def feed (key : Bytes) (r : Reader) (chunk : Bytes) : Reader := chunk.foldl (stepByte key) r
 
 /-- the stream arrives cut into these pieces -/
 def feedChunks (key : Bytes) (r : Reader) (chunks : List Bytes) : Reader := chunks.foldl (feed key) r
+
+/-- a history with key replacements: each segment is fed under the key registered while it arrives -/
+def feedSegments (r : Reader) (segs : List (Bytes × List Bytes)) : Reader :=
+  segs.foldl (fun r seg => feedChunks seg.1 r seg.2) r
 
 /-- the peer closes the connection (or the socket fails): the pending `recv_all` returns false -/
 def close (r : Reader) : Reader :=
